@@ -196,13 +196,28 @@ pub struct RawColr {
 
 /// raw COLR bytes (coverage-guided target / its replays): paint glyphs 0..24 with the balance oracle
 pub fn paint_raw_colr(colr: &[u8], ctl: &[u8; 8]) -> Result<(), (String, String)> {
-    let kit = fontkit::Kit { num_glyphs: 64, upem: 1000, extra: vec![(*b"COLR", colr.to_vec())], ..Default::default() };
+    let kit = fontkit::Kit { num_glyphs: 0xFFFF, upem: 1000, extra: vec![(*b"COLR", colr.to_vec())], ..Default::default() };
     let bytes = kit.build();
     let Ok(font) = FontRef::new(&bytes) else { return Ok(()) };
+    // glyph ids to paint: the first ids listed by the table itself (v0 records and v1 base glyph list) + a few fixed ones
+    let mut gids: Vec<u32> = (0..6).collect();
+    {
+        use read_fonts::TableProvider;
+        if let Ok(t) = font.colr() {
+            if let Some(Ok(recs)) = t.base_glyph_records() {
+                gids.extend(recs.iter().take(24).map(|r| r.glyph_id().to_u32()));
+            }
+            if let Some(Ok(list)) = t.base_glyph_list() {
+                gids.extend(list.base_glyph_paint_records().iter().take(24).map(|r| r.glyph_id().to_u32()));
+            }
+        }
+    }
+    gids.sort();
+    gids.dedup();
     let coords: Vec<F2Dot14> = (0..(ctl[0] % 3) as usize).map(|i| F2Dot14::from_bits(i16::from_be_bytes([ctl[1 + i], ctl[2 + i]]))).collect();
     let script: Vec<u8> = ctl[4..8].iter().take((ctl[3] % 5) as usize).copied().collect();
     let mut st = PaintStats::default();
-    for gid in 0..24u32 {
+    for gid in gids {
         colrgen::paint_and_check(&font, gid, &coords, &script, false, &mut st)?;
     }
     Ok(())
